@@ -62,10 +62,13 @@ class TimeoutFamily:
                 continue
             if answer_at == i:
                 ops += [{'op': 'act', 'target': {'pid': 'p1', 'key': 'k1', 'state': 'interrupted'}, 'action': rng.choice(['next', 'next', 'skip', 'error', 'submit', 'remove']), 'options': {'ecode': 'e1'}}, {'op': 'quiesce'}, {'op': 'snapshot', 'level': snap}]
+            if opts.get('store') == 'sqlite' and rng.random() < 0.4:
+                # a new engine on the same database takes over; the client's next look at the task loads the process
+                ops += [{'op': 'restart'}, {'op': 'quiesce'}]
             ops += [{'op': 'advance_to', 'target': target, 'ms': t}]
             if opts.get('store') == 'sqlite':
-                if rng.random() < 0.4:
-                    ops += [{'op': 'restart'}, {'op': 'quiesce'}]     # a new engine on the same database takes over before the tick
+                if rng.random() < 0.2:
+                    ops += [{'op': 'restart'}, {'op': 'quiesce'}]     # ... or nobody looks at it before the tick
             elif opts.get('evict', True) and rng.random() < 0.25:
                 ops.append({'op': 'evict'})          # the process is not cached when the tick comes
             ops += [{'op': 'tick'}, {'op': 'snapshot', 'level': snap}]
@@ -121,11 +124,16 @@ class TimeoutFamily:
                     obs['c19.ticks-raced-with-the-answer'] += 1
                 tb, ta = o['res']['t_before'], o['res']['t_after']
                 task = None
+                first_start = None
                 for _, _, snap in h.snapshots():
                     for p in snap.get('live') or []:
                         for t in p['tasks']:
                             if t['nid'] == nid:
                                 task = dict(t)
+                                if not first_start and t.get('start_time'):
+                                    first_start = t['start_time']
+                if task is not None and first_start:
+                    task['start_time'] = first_start      # when the task opened, as first seen (a reload must not move it)
                 born = [e['seq'] for e in h.creates if e['nid'] == nid]
                 if task is not None and (not born or born[0] > lo or not task.get('start_time')):
                     task = None        # not created yet at this tick, or closed before it was ever initialised (no start time)
